@@ -6,6 +6,7 @@ import itertools
 import core
 import gen
 import ops  # noqa: F401
+import srctie_c16
 from ops_attrs import WS_CHARS, chist_line, css_line, css_hyphen, describe
 
 PID = "C16"
@@ -34,7 +35,7 @@ MANIFEST = dict(
     technique="Lean 4 proofs (split/join algebra generic in the whitespace predicate, closed forms of the update "
               "funnel) + differential correspondence check on histories; recorded finding with proved negation",
 )
-PROP_FILES = ["HtmlVerif/Props/C16.lean"]
+PROP_FILES = ["HtmlVerif/Props/C16.lean", "HtmlVerif/Props/SrcC16.lean"]
 
 INIT_CLASS = [None, ("p", ""), ("p", "a"), ("p", "a b"), ("p", " a  b\ta "), ("h", "a"), ("h", ""), ("p", " \t"),
               ("h", "a ab a"), ("p", "ab a-b a")]
@@ -306,6 +307,8 @@ def run(tier: str) -> int:
     ck.assumptions.append(f"str.isspace table: {len(WS_CHARS)} code points, contains U+0020: {' ' in WS_CHARS}")
     if " " not in WS_CHARS:
         raise core.Infra("str.isspace(' ') is false in this interpreter")
+    ck.add_src(['Tag_add_class', 'Tag_add_style'])
+    srctie_c16.add_src_c16(ck, ['Tag_has_class', 'Tag_remove_class', 'util_css'])   # need the str.isspace / str.lower tables
     ck.correspond(holds=True)
     # the recorded finding's witness is replayed on every run: a stale record is reported, not hidden
     known = {k["matcher"]: k for k in core.load_known().get("findings", []) if k["property"] == PID}
